@@ -42,7 +42,7 @@ theorem include_is_splice (fs : FS) (dirs : List String) (fuel : Nat) (path base
     (hsrc : splitLines source = pre ++ raw :: post)
     (hinc : IsIncludeLine raw rel) (hform : pathOk rel = true)
     (hlook : lookupPath fs rel (dirs ++ [base]) = some incPath) (hdir : fs.isDirAt incPath = false)
-    (hread : fs.readAt incPath = some bs) (hascii : bytesToAscii bs = some src) :
+    (hread : fs.readAt incPath = some bs) (hascii : bytesToText bs = some src) :
     readLinesAux fs dirs (fuel + 1) path base source =
       seqLines (linesFrom fs dirs fuel path base 1 pre)
         (seqLines (readLinesAux fs dirs fuel incPath (baseOf incPath) src)
@@ -57,7 +57,7 @@ theorem include_is_splice_source (fs : FS) (dirs : List String) (fuel : Nat) (pa
     (hnb : ∀ l ∈ pre ++ raw :: post, NoBreak l)
     (hinc : IsIncludeLine raw rel) (hform : pathOk rel = true)
     (hlook : lookupPath fs rel (dirs ++ [base]) = some incPath) (hdir : fs.isDirAt incPath = false)
-    (hread : fs.readAt incPath = some bs) (hascii : bytesToAscii bs = some src) :
+    (hread : fs.readAt incPath = some bs) (hascii : bytesToText bs = some src) :
     readLinesAux fs dirs (fuel + 1) path base (unlines (pre ++ raw :: post)) =
       seqLines (linesFrom fs dirs fuel path base 1 pre)
         (seqLines (readLinesAux fs dirs fuel incPath (baseOf incPath) src)
@@ -75,7 +75,7 @@ theorem include_textual_splice (fs : FS) (dirs : List String) (fuel : Nat) (path
     (hB : splitLines srcB = pre ++ (splitLines src ++ post))
     (hinc : IsIncludeLine raw rel) (hform : pathOk rel = true)
     (hlook : lookupPath fs rel (dirs ++ [base]) = some incPath) (hdir : fs.isDirAt incPath = false)
-    (hread : fs.readAt incPath = some bs) (hascii : bytesToAscii bs = some src)
+    (hread : fs.readAt incPath = some bs) (hascii : bytesToText bs = some src)
     (hplain : ∀ l ∈ splitLines src, IsPlainLine l) :
     contentsOf (readLinesAux fs dirs (fuel + 2) path base srcA) =
       contentsOf (readLinesAux fs dirs (fuel + 2) path base srcB) := by
@@ -99,7 +99,7 @@ theorem frontEnd_include_splice (fs : FS) (cwd : String) (dirs : List String) (A
     (hB : splitLines B.toList = pre ++ (splitLines src ++ post))
     (hinc : IsIncludeLine raw rel) (hform : pathOk rel = true)
     (hlook : lookupPath fs rel (dirs ++ [cwd]) = some incPath) (hdir : fs.isDirAt incPath = false)
-    (hread : fs.readAt incPath = some bs) (hascii : bytesToAscii bs = some src)
+    (hread : fs.readAt incPath = some bs) (hascii : bytesToText bs = some src)
     (hplain : ∀ l ∈ splitLines src, IsPlainLine l) :
     erasedItems (frontEnd fs cwd dirs (.source A)) = erasedItems (frontEnd fs cwd dirs (.source B)) := by
   rw [frontEnd_source fs cwd dirs A hcwd hdirs hasciiA, frontEnd_source fs cwd dirs B hcwd hdirs hasciiB]
@@ -136,7 +136,7 @@ theorem include_same_result (fs : FS) (cwd : String) (dirs : List String) (c : B
     (hB : splitLines B.toList = pre ++ (splitLines src ++ post))
     (hinc : IsIncludeLine raw rel) (hform : pathOk rel = true)
     (hlook : lookupPath fs rel (dirs ++ [cwd]) = some incPath) (hdir : fs.isDirAt incPath = false)
-    (hread : fs.readAt incPath = some bs) (hascii : bytesToAscii bs = some src)
+    (hread : fs.readAt incPath = some bs) (hascii : bytesToText bs = some src)
     (hplain : ∀ l ∈ splitLines src, IsPlainLine l) :
     resultOf (assembleText fs cwd dirs c (.source A)) = resultOf (assembleText fs cwd dirs c (.source B)) := by
   rw [resultOf_assembleText, resultOf_assembleText,
@@ -148,7 +148,7 @@ theorem path_same_as_source (fs : FS) (cwd : String) (dirs : List String) (c : B
     (bs : List Nat) (text : String)
     (hcwd : normAbs cwd = true) (hdirs : dirs.all absOk = true) (hp : absOk p = true)
     (hbase : normAbs (baseOf p) = true)
-    (hr : fs.readAt p = some bs) (ha : bytesToAscii bs = some text.toList)
+    (hr : fs.readAt p = some bs) (ha : bytesToText bs = some text.toList)
     (hascii : text.toList.all (fun c => c.toNat < 128) = true) :
     resultOf (assembleText fs cwd dirs c (.path p)) =
       resultOf (assembleText fs (baseOf p) dirs c (.source text)) := by
